@@ -108,9 +108,21 @@ def run(F, R, tier):
         R.touched(body["id"])
         Bs = mir.Body(body, F)
         events = set()
-        for o in Bs.origins({"l": 0, "p": []}, deep=True):
-            if o[0] == "call":
-                events.add((q.base_name(o[1]), o[2]))
+
+        def leaves(x, depth=4):
+            # a std computation over the snapshot (zip / unzip / map ..) is derived from what it is applied to
+            for o in Bs.origins(x, deep=True):
+                if o[0] != "call":
+                    continue
+                if o[1].startswith(("azure_proxy_agent::", "proxy_agent_shared::")) or depth <= 0:
+                    events.add((q.base_name(o[1]), o[2]))
+                else:
+                    args = Bs.blocks[o[2]]["term"]["args"]
+                    if not args:
+                        events.add((q.base_name(o[1]), o[2]))
+                    for a in args:
+                        leaves(a, depth - 1)
+        leaves({"l": 0, "p": []})
         reads = [(c[0], q.base_name(c[2] or c[1])) for c in Bs.calls if c[1] != mir.POLL and "KeyKeeperSharedState::get" in q.base_name(c[2] or c[1] or "")]
         ok = len(events) == 1 and next(iter(events))[0] == PRIM and len(reads) == 1
         R.check(ok, "C10.R1", "C10.R1:%s:one-round-trip" % src, "%s:%s" % (body["file"], body["line"]),
